@@ -119,7 +119,10 @@ func (s *sys) do(st step) impl.Reply {
 
 func diff(ms mstate, s *sys) string {
 	for i, db := range ms.Dbs {
-		dump := memdb.VerifDump(s.mgr.DBs[i])
+		var dump []memdb.VerifValue
+		if s.mgr.DBs[i] != nil { // a database object that does not exist (yet) is an empty database
+			dump = memdb.VerifDump(s.mgr.DBs[i])
+		}
 		if len(dump) != len(db) {
 			return fmt.Sprintf("database %d has %d keys, model %d", i, len(dump), len(db))
 		}
